@@ -126,6 +126,14 @@ def F(x):
     return None if (isinstance(x, float) and np.isnan(x)) else Fraction(x)
 
 
+class NoModel:
+    """stands for a model answer when the check runs without the extracted model: every tie comparison is skipped"""
+
+
+def mcall(ctx, entry, arg):
+    return NoModel if getattr(ctx, "no_model", False) else ctx.model(entry, arg)
+
+
 def oracle_fill(xs, ys, method, mn):
     """the named method's prescription: linear = interpolate between the nearest given points, extend the first / last segment, clip to
     [0,1]; step = last given value, 0 before the first; forward = last given value, first given value before it; backward = mirror"""
@@ -172,7 +180,7 @@ def check_envelope(ctx, da=None, sizes=None):
     desc = {"fn": "cdf_envelope", "cdf": gens.da_repr(da)}
     impl = core.call_impl(C().cdf_envelope, da, TD)
     dims, labs, lines = lines_of(da, sizes)
-    m = ctx.model("c17_envelope", enc_lines(lines))
+    m = mcall(ctx, "c17_envelope", enc_lines(lines))
     ctx.case(desc)
     ctx.count("envelope")
     if impl[0] != "ok":
@@ -203,7 +211,7 @@ def check_envelope(ctx, da=None, sizes=None):
             ctx.violation("cdf_envelope does not bracket minimally / is not monotone / changes a non-decreasing CDF / moves a NaN", {**desc, "case": dict(zip(dims, lb))},
                           "lower<=original<=upper, upper = running max, lower = reverse running min, NaN kept", {"original": o2, "upper": u, "lower": l})
             break
-    for k, name in enumerate(["original", "upper", "lower"]):
+    for k, name in enumerate(["original", "upper", "lower"] if m is not NoModel else []):
         bad = cmp_lines(env.sel(cdf_type=name), sizes, [t[k] for t in m])
         if bad:
             ctx.tie_fail(f"cdf_envelope '{name}' differs from the model", {**desc, "case": bad[0]}, bad[1], bad[2])
@@ -222,7 +230,7 @@ def check_fill(ctx, da=None, sizes=None, ths=None, method=None, mn=None):
     desc = {"fn": "fill_cdf", "cdf": gens.da_repr(da), "method": method, "min_nonnan": mn}
     impl = core.call_impl(C().fill_cdf, da, TD, method, mn)
     dims, labs, lines = lines_of(da, sizes)
-    m = ctx.model("c17_fill", enc_list([enc_nums([t / 2.0 for t in ths]), enc_lines(lines), enc_str(method), str(mn)]))
+    m = mcall(ctx, "c17_fill", enc_list([enc_nums([t / 2.0 for t in ths]), enc_lines(lines), enc_str(method), str(mn)]))
     ctx.case(desc, nontrivial=impl[0] == "ok")
     ctx.count("fill:" + method)
     should_raise = (method not in FILLS) or any((not np.isnan(v)) and not (0 <= v <= 1) for l in lines for v in l) or \
@@ -233,7 +241,7 @@ def check_fill(ctx, da=None, sizes=None, ths=None, method=None, mn=None):
                           desc, "err:ValueError" if should_raise else "a value", impl[1] if impl[0] == "err" else "a value")
         else:
             ctx.count("fill:error_path")
-        if not (core.is_err(m) and impl[0] == "err" and impl[1] == m):
+        if m is not NoModel and not (core.is_err(m) and impl[0] == "err" and impl[1] == m):
             ctx.tie_fail("fill_cdf raises/returns differently from the model", desc, str(impl[1])[:200], str(m)[:200])
         return
     _, _, got = lines_of(impl[1], sizes)
@@ -246,6 +254,8 @@ def check_fill(ctx, da=None, sizes=None, ths=None, method=None, mn=None):
                     f"fill_cdf('{method}') does not keep the given ordinates and fill the others as the method prescribes within [0,1]")
             ctx.violation(what, {**desc, "case": dict(zip(dims, lb))}, [None if w is None else str(w) for w in want], g)
             break
+    if m is NoModel:
+        return
     if core.is_err(m):
         ctx.tie_fail("fill_cdf returns a value where the model raises", desc, "value", m)
         return
@@ -267,14 +277,14 @@ def check_add_thresholds(ctx):
     desc = {"fn": "add_thresholds", "cdf": gens.da_repr(da), "new_thresholds": new, "fill_method": method, "min_nonnan": mn}
     impl = core.call_impl(C().add_thresholds, da, TD, new, method, min_nonnan=mn)
     dims, labs, lines = lines_of(da, sizes)
-    m = ctx.model("c17_add_thresholds", enc_list([enc_nums([t / 2.0 for t in ths]), enc_lines(lines), enc_nums(new), enc_str(method), str(mn)]))
+    m = mcall(ctx, "c17_add_thresholds", enc_list([enc_nums([t / 2.0 for t in ths]), enc_lines(lines), enc_nums(new), enc_str(method), str(mn)]))
     ctx.case(desc, nontrivial=impl[0] == "ok")
     ctx.count("add_thresholds:" + method)
     should_raise = method != "none" and (mn < 2 and method == "linear")
     if impl[0] == "err":
         if not should_raise:
             ctx.violation("add_thresholds raises on a valid input", desc, "a value", impl[1])
-        if not (core.is_err(m) and impl[1] == m):
+        if m is not NoModel and not (core.is_err(m) and impl[1] == m):
             ctx.tie_fail("add_thresholds raises where the model returns", desc, str(impl[1])[:200], str(m)[:200])
         return
     # predicate: thresholds = sorted union; given ordinates stay at their thresholds; new ones are filled as the method prescribes
@@ -293,6 +303,8 @@ def check_add_thresholds(ctx):
                 ctx.violation(f"add_thresholds('{method}') does not keep the given ordinates / fill the new thresholds as prescribed",
                               {**desc, "case": dict(zip(dims, lb))}, [None if w is None else str(w) for w in want], g)
                 break
+    if m is NoModel:
+        return
     if core.is_err(m):
         ctx.tie_fail("add_thresholds returns a value where the model raises", desc, "value", m)
         return
@@ -318,7 +330,7 @@ def check_decreasing(ctx, da=None, sizes=None, ths=None, tol=None):
             tol = -0.125
     desc = {"fn": "decreasing_cdfs", "cdf": gens.da_repr(da), "tolerance": tol}
     impl = core.call_impl(C().decreasing_cdfs, da, TD, tol)
-    m = ctx.model("c17_decreasing", enc_list([enc_nums([t / 2.0 for t in ths]), enc_lines(lines), enc_num(tol)]))
+    m = mcall(ctx, "c17_decreasing", enc_list([enc_nums([t / 2.0 for t in ths]), enc_lines(lines), enc_num(tol)]))
     ctx.case(desc, nontrivial=impl[0] == "ok")
     ctx.count("decreasing")
     mixed = any(any(np.isnan(v) for v in l) and not all(np.isnan(v) for v in l) for l in lines)
@@ -327,7 +339,7 @@ def check_decreasing(ctx, da=None, sizes=None, ths=None, tol=None):
         if not (impl[0] == "err" and should_raise and impl[1] == "err:ValueError"):
             ctx.violation("decreasing_cdfs raises / does not raise ValueError exactly for a negative tolerance or a partly-NaN CDF", desc,
                           "err:ValueError" if should_raise else "a value", impl[1] if impl[0] == "err" else "a value")
-        if not (core.is_err(m) and impl[0] == "err" and impl[1] == m):
+        if m is not NoModel and not (core.is_err(m) and impl[0] == "err" and impl[1] == m):
             ctx.tie_fail("decreasing_cdfs raises/returns differently from the model", desc, str(impl[1])[:200], str(m)[:200])
         return
     flags = []
@@ -339,6 +351,8 @@ def check_decreasing(ctx, da=None, sizes=None, ths=None, tol=None):
             ctx.violation("decreasing_cdfs does not flag exactly the lines whose total decrease exceeds the tolerance", {**desc, "case": sel, "total_decrease": str(d)},
                           d > Fraction(tol), g)
             break
+    if m is NoModel:
+        return
     if core.is_err(m):
         ctx.tie_fail("decreasing_cdfs returns a value where the model raises", desc, "value", m)
         return
@@ -355,7 +369,7 @@ def check_small_tools(ctx):
     da, sizes, ths = gen_array(rng, nan_mode=rng.choice(["scatter", "none", "line"]))
     dims, labs, lines = lines_of(da, sizes)
     impl = core.call_impl(c.propagate_nan, da, TD)
-    m = ctx.model("c17_propagate", enc_lines(lines))
+    m = mcall(ctx, "c17_propagate", enc_lines(lines))
     desc = {"fn": "propagate_nan", "cdf": gens.da_repr(da)}
     ctx.case(desc)
     ctx.count("propagate_nan")
@@ -368,7 +382,7 @@ def check_small_tools(ctx):
             if not same_line(g, want):
                 ctx.violation("propagate_nan: a line with a NaN is not entirely NaN, or a NaN-free line is changed", {**desc, "case": dict(zip(dims, lb))}, want, g)
                 break
-        bad = cmp_lines(impl[1], sizes, m)
+        bad = cmp_lines(impl[1], sizes, m) if m is not NoModel else None
         if bad:
             ctx.tie_fail("propagate_nan differs from the model", {**desc, "case": bad[0]}, bad[1], bad[2])
     # ---- observed_cdf
@@ -410,15 +424,15 @@ def check_small_tools(ctx):
                 if not same_line(g, want):
                     ctx.violation("observed_cdf is not 1{threshold >= observation} (NaN for a NaN observation)", {**desc, "case": {"a": lb[0]}}, [None if w is None else int(w) for w in want], g)
                     break
-            m = ctx.model("c17_observed_cdf", enc_list([enc_nums(ro), enc_nums(grid)]))
-            bad = cmp_lines(impl[1], sizes, m)
+            m = mcall(ctx, "c17_observed_cdf", enc_list([enc_nums(ro), enc_nums(grid)]))
+            bad = cmp_lines(impl[1], sizes, m) if m is not NoModel else None
             if bad:
                 ctx.tie_fail("observed_cdf differs from the model", {**desc, "case": bad[0]}, bad[1], bad[2])
     # ---- round_values
     p = rng.choice([0, 0.5, 0.25, 2, 1, 0.125, -1])
     vals = [NAN if rng.random() < 0.1 else rng.randint(-64, 64) / 16.0 for _ in range(rng.randint(1, 6))]
     impl = core.call_impl(c.round_values, xr.DataArray(vals, dims=["x"]), p)
-    m = ctx.model("c17_round", enc_list([enc_nums(vals), enc_num(p), enc_bool(True)]))
+    m = mcall(ctx, "c17_round", enc_list([enc_nums(vals), enc_num(p), enc_bool(True)]))
     desc = {"fn": "round_values", "values": vals, "rounding_precision": p}
     ctx.case(desc, nontrivial=impl[0] == "ok")
     ctx.count("round_values")
@@ -436,7 +450,9 @@ def check_small_tools(ctx):
             if not good:
                 ctx.violation("round_values result is not the nearest multiple of the precision (0 = unchanged)", desc, "multiple of p within p/2", float(g))
                 break
-    if core.is_err(m) or impl[0] == "err":
+    if m is NoModel:
+        pass
+    elif core.is_err(m) or impl[0] == "err":
         if not (core.is_err(m) and impl[0] == "err" and impl[1] == m):
             ctx.tie_fail("round_values raises/returns differently from the model", desc, str(impl[1])[:100], str(m)[:100])
     elif not core.close_list([float(v) for v in impl[1].values], core.dec_nums(m)):
@@ -488,12 +504,12 @@ def check_adjust(ctx):
         o = float(obs.sel(sel).values) if sel else float(obs.values)
         obs_of.append(o)
         cases.append(enc_list([enc_nums(l), enc_num(o)]))
-    m = ctx.model("c17_adjust", enc_list([enc_nums([t / 2.0 for t in ths]), enc_list(cases), enc_nums(add or []), enc_str(ffm), enc_str(im), enc_num(tol)]))
+    m = mcall(ctx, "c17_adjust", enc_list([enc_nums([t / 2.0 for t in ths]), enc_list(cases), enc_nums(add or []), enc_str(ffm), enc_str(im), enc_num(tol)]))
     flagged = [d > Fraction(tol) for d in decs]
     ctx.case(desc, nontrivial=impl[0] == "ok" and any(flagged))
     ctx.count("adjust:" + ("some_decreasing" if any(flagged) else "none_decreasing"))
     if impl[0] == "err":
-        if not (core.is_err(m) and impl[1] == m):
+        if m is not NoModel and not (core.is_err(m) and impl[1] == m):
             ctx.tie_fail("adjust_fcst_for_crps raises where the model returns a value", desc, str(impl[1])[:200], str(m)[:200])
         return
     _, _, got = lines_of(impl[1], sizes)
@@ -555,6 +571,8 @@ def check_adjust(ctx):
                 break
     # ---- tie (a case whose best CRPS values agree to 1e-12 without being bit-equal is decided by binary64 rounding in the
     # implementation and by exact arithmetic in the model: such near ties are not compared)
+    if m is NoModel:
+        return
     if core.is_err(m):
         ctx.tie_fail("adjust_fcst_for_crps returns a value where the model raises", desc, "value", m)
         return
@@ -592,6 +610,12 @@ def corpus(ctx):
         if got != want:
             ctx.violation("adjust_fcst_for_crps breaks a CRPS tie in the wrong order (documented: original, then upper, then lower)",
                           {"fcst": k["line"], "thresholds": list(range(n)), "obs": k["obs"], "integration_method": "trapz"}, {k["expect"]: want}, got)
+
+
+def run_without_model(ctx):
+    """the extracted model does not build against the current source: the plain-Python predicates need no model"""
+    ctx.no_model = True
+    run(ctx)
 
 
 def replay(ctx, obj):
